@@ -11,3 +11,25 @@ Fixpoint join_semi (l : list bytes) : bytes :=
 
 Definition model_get (x : expr) (d : jv) : bytes := join_semi (map (fun v => show (canon v)) (get_spec x d)).
 Definition model_match (e : eqn) (d : jv) : bytes := if script_match e d then [x74] else [x66].
+
+Require Import Ojg.Jp.Locate.
+
+Definition show_nfrag (f : frag) : bytes :=
+  match f with
+  | FRoot => [x52]
+  | FAt => [x41]
+  | FChild k => x28 :: x63 :: x20 :: hex_of_bytes k ++ [x29]
+  | FNth i => x28 :: x6e :: x20 :: format_int i ++ [x29]
+  | _ => [x3f]
+  end.
+
+Definition show_npath (p : list frag) : bytes := x28 :: x70 :: x20 :: join_sp' (map show_nfrag p) ++ [x29].
+
+Definition model_locate (x : expr) (d : jv) : bytes :=
+  join_semi (map (fun pc => show_npath (fst pc) ++ x20 :: x7c :: x20 :: show (canon (snd pc))) (locate_spec x d)).
+Definition model_first (x : expr) (d : jv) : bytes :=
+  match first_spec x d with Some v => x53 :: x20 :: show (canon v) | None => [x4e] end.
+Definition model_has (x : expr) (d : jv) : bytes := if has_spec x d then [x74] else [x66].
+
+Definition model_locate_ses (x : expr) (d : jv) : bytes :=
+  join_semi (map (fun pc => show_npath (fst pc) ++ x20 :: x7c :: x20 :: show (canon (snd pc))) (locate_ses x d)).
